@@ -40,6 +40,9 @@ type c13W struct {
 	// the output is not specified (the code forwards an empty record); the other
 	// items must still come out once each, in input order.
 	Bad []int `json:"bad,omitempty"`
+	// batcher: the consumer pauses this long (simulated) after every batch it
+	// takes, so that the batcher's output buffer fills while timeouts fire
+	ConsDelayUs int `json:"cons_delay_us,omitempty"`
 }
 
 func init() {
@@ -118,6 +121,22 @@ func genC13(r *Rng, tier string) *c13W {
 			w.GapsUs = append(w.GapsUs, g)
 		}
 		w.CloseGap = []int{0, w.TimeoutUs * 2}[r.Intn(2)]
+		if r.Chance(35) {
+			w.ConsDelayUs = []int{w.TimeoutUs / 2, w.TimeoutUs * 2, w.TimeoutUs * 10}[r.Intn(3)]
+			// many small batches, so that they outnumber the output buffer
+			if r.Chance(60) {
+				w.BatchSize = 1 + r.Intn(2)
+				w.N = 120 + r.Intn(200)
+				w.GapsUs = nil
+				for i := 0; i < w.N; i++ {
+					g := 0
+					if r.Chance(6) {
+						g = w.TimeoutUs * 3
+					}
+					w.GapsUs = append(w.GapsUs, g)
+				}
+			}
+		}
 	case "dual":
 		w.N = sizesAround(r, 100/maxi(1, w.Run.CapDiv), 10)
 		if w.N > 300 {
@@ -196,6 +215,11 @@ func shrinkC13(w *c13W) []interface{} {
 	if w.Run.SlowPct > 0 {
 		n := cp()
 		n.Run.SlowPct = 0
+		out = append(out, n)
+	}
+	if w.ConsDelayUs > 0 {
+		n := cp()
+		n.ConsDelayUs = 0
 		out = append(out, n)
 	}
 	if w.Run.Policy != 0 {
@@ -428,6 +452,9 @@ func execC13once(w *c13W, x *Exec) *Outcome {
 					for _, e := range b {
 						got = append(got, e.ID)
 					}
+					if w.ConsDelayUs > 0 {
+						time.Sleep(time.Duration(w.ConsDelayUs) * time.Microsecond)
+					}
 				}
 				closed, inputDoneAtClose = true, inputDone
 			})
@@ -535,6 +562,9 @@ func execC13once(w *c13W, x *Exec) *Outcome {
 	}
 	if w.Run.CapDiv > 1 {
 		o.Count("fault:buffer_scaling", 1)
+	}
+	if w.ConsDelayUs > 0 {
+		o.Count("fault:slow_consumer", 1)
 	}
 	if res.Infra != "" {
 		o.Inconclusive = "infra:" + res.Infra
